@@ -540,6 +540,85 @@ func c20CheckDecoderReuse(c *h.Ctx, seedA, seedB uint64) {
 	}
 }
 
+// ---------------------------------------------------------------- decode sequences (model rows)
+
+type c20DecMsg struct {
+	Root  int    `json:"root"` // index in c20DecRoots
+	Seed  uint64 `json:"seed"`
+	Tag   int    `json:"tag"`
+	Shape string `json:"shape,omitempty"` // "old" / "new": the wire form of a c20Gated under version 1.0 / 1.4, decoded as c20Gated
+}
+
+type c20DecCase struct {
+	Mode string      `json:"mode"` // "decode-seq"
+	Enc  string      `json:"enc"`
+	Msgs []c20DecMsg `json:"msgs"`
+}
+
+func c20DecInput(enc string, m c20DecMsg) (in []byte, ok bool) {
+	defer func() {
+		if recover() != nil {
+			ok = false
+		}
+	}()
+	r := h.NewRand(m.Seed)
+	switch m.Shape {
+	case "old":
+		return c20SynMarshal(enc, m.Tag, c20GatedOld{B: c20SafeString(r, 6), F: int32(r.Intn(50))}), true
+	case "new":
+		return c20SynMarshal(enc, m.Tag, c20GatedNew{A: int32(r.Intn(50)), D: &c20Leafs{I: 1, B: true}, F: 2}), true
+	}
+	v := c20Gen(r, c20DecRoots[m.Root], 3, false).Interface()
+	return c20SynMarshal(enc, m.Tag, v), true
+}
+
+// c20RunDecCase decodes the messages one after the other with ONE decoder over the
+// concatenated input; returns the input and the observations (stops at the first failure).
+func c20RunDecCase(tt *c20Types, dc c20DecCase) (input []byte, obs []string, ok bool) {
+	for _, m := range dc.Msgs {
+		in, good := c20DecInput(dc.Enc, m)
+		if !good {
+			return nil, nil, false
+		}
+		input = append(input, in...)
+	}
+	var d ttlv.Decoder
+	var err error
+	data := append([]byte{}, input...)
+	switch dc.Enc {
+	case "xml":
+		d, err = ttlv.NewXMLDecoder(data)
+	case "json":
+		d, err = ttlv.NewJSONDecoder(data)
+	default:
+		d, err = ttlv.NewTTLVDecoder(data)
+	}
+	if err != nil {
+		return input, nil, false
+	}
+	for _, m := range dc.Msgs {
+		t := c20DecRoots[m.Root]
+		ptr := reflect.New(t)
+		class := func() (cl string) {
+			defer func() {
+				if recover() != nil {
+					cl = "DoPanic"
+				}
+			}()
+			if err := d.TagAny(m.Tag, ptr.Interface()); err != nil {
+				return "DoErr"
+			}
+			return "ok"
+		}()
+		if class != "ok" {
+			obs = append(obs, class)
+			break
+		}
+		obs = append(obs, "DoOk ("+c20CoqValue(tt, ptr.Elem())+")")
+	}
+	return input, obs, true
+}
+
 // ---------------------------------------------------------------- scheduled threads
 
 type c20SynMsg struct {
@@ -619,6 +698,7 @@ type c20Emit struct {
 	size    int
 	budget  int
 	skipped int
+	used    map[string]int
 }
 
 func (em *c20Emit) intern(typ, term string) string {
@@ -637,11 +717,17 @@ func (em *c20Emit) intern(typ, term string) string {
 	return nm
 }
 
-func (em *c20Emit) room(n int) bool {
-	if em.size+n > em.budget {
+// room: each kind of random row has its own share of the budget.
+func (em *c20Emit) room(section string, n int) bool {
+	share := map[string]int{"hist": 35, "dec": 20, "sched": 25, "child": 20}[section]
+	if em.used == nil {
+		em.used = map[string]int{}
+	}
+	if em.used[section]+n > em.budget*share/100 {
 		em.skipped++
 		return false
 	}
+	em.used[section] += n
 	return true
 }
 
@@ -799,7 +885,7 @@ func driveC20(c *h.Ctx) error {
 	c.Eval("fresh-objects", true)
 	c.Count("fresh-objects-probes")
 
-	em := &c20Emit{names: map[string]string{}, budget: c.Pick(900_000, 6_000_000)}
+	em := &c20Emit{names: map[string]string{}, budget: c.Pick(700_000, 5_000_000)}
 	var histRows []string
 	addHist := func(hc c20HistCase, always bool) error {
 		full, obs := c20CheckHistory(c, hc)
@@ -815,7 +901,7 @@ func driveC20(c *h.Ctx) error {
 			cs = append(cs, ct)
 			os_ = append(os_, o)
 		}
-		if always || em.room(sz) {
+		if always || em.room("hist", sz) {
 			for i := range cs {
 				cs[i] = em.intern("call", cs[i])
 				os_[i] = em.intern("obs", os_[i])
@@ -917,6 +1003,60 @@ func driveC20(c *h.Ctx) error {
 		c.Count("pair:one-decoder")
 	}
 
+	// ---- decode sequences on one decoder (rows for the model)
+	var decRows []string
+	for i := 0; i < c.Pick(400, 3000); i++ {
+		r := c.Rng.Fork(uint64(65000 + i))
+		dc := c20DecCase{Mode: "decode-seq", Enc: []string{"ttlv", "ttlv", "xml", "json"}[r.Intn(4)]}
+		n := 1
+		if dc.Enc == "ttlv" {
+			n = 1 + r.Intn(3)
+		}
+		for k := 0; k < n; k++ {
+			m := c20DecMsg{Root: r.Intn(len(c20DecRoots)), Seed: r.U64(), Tag: 0x540700 + r.Intn(2)}
+			if r.Chance(1, 4) {
+				m.Root = 1 // c20Gated
+				m.Shape = []string{"old", "new"}[r.Intn(2)]
+			} else if r.Chance(1, 3) {
+				m.Root = 3 // a bare header: leaves its version in the decoder
+			}
+			dc.Msgs = append(dc.Msgs, m)
+		}
+		input, obs, ok := c20RunDecCase(tt, dc)
+		if !ok {
+			continue
+		}
+		var forest []*c20Item
+		var perr error
+		switch dc.Enc {
+		case "xml":
+			forest, perr = c20ParseXML(input, byName)
+		case "json":
+			forest, perr = c20ParseJSON(input, byName)
+		default:
+			forest, perr = c20ParseTTLV(input)
+		}
+		if perr != nil {
+			return fmt.Errorf("cannot read back %s input of %v: %w", dc.Enc, dc, perr)
+		}
+		var calls []string
+		for _, m := range dc.Msgs {
+			calls = append(calls, fmt.Sprintf("(%s, %d)", em.intern("dplan", c20DPlan(c20DecRoots[m.Root])), m.Tag))
+		}
+		row := fmt.Sprintf("(%s, %s, %s)", h.List(calls), c20CoqItems(forest), h.List(obs))
+		key, _ := json.Marshal(dc)
+		c.Eval(string(key), true)
+		c.Count("decode-seq:" + dc.Enc)
+		for _, o := range obs {
+			c.Count("decode-seq-outcome:" + strings.SplitN(o, " ", 2)[0])
+		}
+		if em.room("dec", len(row)) {
+			em.size += len(row)
+			decRows = append(decRows, row)
+			c.IndexCase("mism_dec", len(decRows)-1, dc)
+		}
+	}
+
 	// ---- (c) scheduled threads on cold caches
 	var schedRows []string
 	addSched := func(sc c20SchedCase) {
@@ -958,7 +1098,7 @@ func driveC20(c *h.Ctx) error {
 			outs = append(outs, h.List(os_))
 		}
 		row := fmt.Sprintf("(%s, %s, %s)", h.List(work), h.List(sched), h.List(outs))
-		if len(schedRows) < 70 || em.room(len(row)) {
+		if len(schedRows) < 70 || em.room("sched", len(row)) {
 			em.size += len(row)
 			schedRows = append(schedRows, row)
 			c.IndexCase("mism_sched", len(schedRows)-1, sc)
@@ -1043,7 +1183,7 @@ func driveC20(c *h.Ctx) error {
 		}
 	}
 	for i, row := range childRows {
-		if !em.room(len(row)) {
+		if !em.room("child", len(row)) {
 			continue
 		}
 		em.size += len(row)
@@ -1065,7 +1205,10 @@ func driveC20(c *h.Ctx) error {
 	sb.WriteString(sdefs)
 	fmt.Fprintf(&sb, "Definition mism_hist := Eval vm_compute in bad_idx hrow_ok %s 0.\nPrint mism_hist.\n", hexpr)
 	fmt.Fprintf(&sb, "Definition mism_sched := Eval vm_compute in bad_idx srow_ok %s 0.\nPrint mism_sched.\n", sexpr)
-	return c.WriteCases("cases_C20.v", sb.String(), len(histRows)+len(schedRows))
+	ddefs, dexpr := h.Chunk("drows", "list (dplan * Z) * cursor * list dobs", decRows, 100)
+	sb.WriteString(ddefs)
+	fmt.Fprintf(&sb, "Definition mism_dec := Eval vm_compute in bad_idx drow_ok %s 0.\nPrint mism_dec.\n", dexpr)
+	return c.WriteCases("cases_C20.v", sb.String(), len(histRows)+len(schedRows)+len(decRows))
 }
 
 const c20CasesPrelude = `
@@ -1106,6 +1249,29 @@ Definition obs_eqb (a b : obs) : bool :=
   end.
 Definition hrow_ok (r : wkind * list call * list obs) : bool :=
   match r with (k, cs, os) => list_eqb obs_eqb (snd (run_calls lkp tag_of cs (enc_new k))) os end.
+Fixpoint value_eqb (a b : value) {struct a} : bool :=
+  match a, b with
+  | VLeaf x, VLeaf y => leaf_eqb x y
+  | VNil, VNil => true
+  | VPtr x, VPtr y => value_eqb x y
+  | VList x, VList y | VStruct x, VStruct y =>
+      (fix go (x y : list value) : bool :=
+         match x, y with
+         | [], [] => true
+         | i :: x', j :: y' => value_eqb i j && go x' y'
+         | _, _ => false
+         end) x y
+  | VIface t x, VIface t' y => (t =? t') && value_eqb x y
+  | _, _ => false
+  end.
+Definition dobs_eqb (a b : dobs) : bool :=
+  match a, b with
+  | DoOk x, DoOk y => value_eqb x y
+  | DoErr, DoErr | DoPanic, DoPanic => true
+  | _, _ => false
+  end.
+Definition drow_ok (r : list (dplan * Z) * cursor * list dobs) : bool :=
+  match r with (calls, c, os) => list_eqb dobs_eqb (run_decodes 60 calls None c) os end.
 Definition ov_eqb (a b : obs * view) : bool := obs_eqb (fst a) (fst b) && view_eqb (snd a) (snd b).
 Definition srow_ok (r : list (list msg) * list nat * list (list (obs * view))) : bool :=
   match r with (work, sched, out) => list_eqb (list_eqb ov_eqb) (run_threads tbl tag_of 24 2500 work sched) out end.
